@@ -37,6 +37,8 @@ theorem cutTilesAux_allTrue {α} (z : α) (M : Img α) (R C tr tc ch : Int) (off
       | ok t =>
         rw [hg] at h
         simp only at h
+        split at h
+        · simp at h
         cases hrec : cutTilesAux z M R C tr tc ch offs ks (base + 1) with
         | error e => simp [hrec] at h
         | ok v =>
